@@ -139,6 +139,8 @@ func (p *Policy) GetMinSwapAmountMsat() uint64 {
 
 // NewSwapsAllowed returns the boolean value of AllowNewSwaps.
 func (p *Policy) NewSwapsAllowed() bool {
+	mu.Lock()
+	defer mu.Unlock()
 	return p.AllowNewSwaps
 }
 
